@@ -24,7 +24,8 @@ from .shrink import Shrinker
 
 VERIF = os.path.dirname(os.path.dirname(os.path.abspath(__file__)))
 DIGEST_CAP = 3000000
-N_CANDS = 6  # candidate runs kept per violation signature (lowest run indexes)
+N_CANDS = 24  # candidate runs kept per violation signature (lowest run indexes)
+N_REPLAY_TRIES = 6  # ... of which at most this many go through minimisation and the fresh-interpreter replay
 OUT = os.environ.get("DSIM_OUT") or VERIF  # evidence/ and replays/ go here (self-tests redirect it)
 PROPS = {
     "C04": "c04_run_containment", "C05": "c05_parser_reuse", "C06": "c06_format_builder",
@@ -345,10 +346,25 @@ def write_evidence(prop, h, tier, verif_seed, total, wall, audit, known_hit, n_u
 
 
 # --------------------------------------------------------------------------------------------
+def _verify_in_child(prop, sc, sig):
+    """Does the scenario, executed as the first and only one of a process, show the signature?"""
+    h = load(prop)
+    if hasattr(h, "setup"):
+        h.setup()
+    res = execute(h, sc)
+    return any(signature(v) == tuple(sig) for v in res.violations)
+
+
 def run_check(prop, tier, verif_seed, runs=None, workers=None):
     t0 = _real_time.time()
     check_code_under_test()
     h = load(prop)
+    # a pristine helper process, forked before this one has executed a single scenario: candidates of
+    # a violation are first tried there, each in a child of its own, so that a scenario which only
+    # fails because of what its worker had run before (state kept by the code under test) is passed
+    # over in favour of one that fails by itself
+    from . import zygote
+    zygote.ensure()
     if hasattr(h, "setup"):
         h.setup()
     if runs is None:
@@ -398,8 +414,18 @@ def run_check(prop, tier, verif_seed, runs=None, workers=None):
     for sig in sorted(total.get("violations", {})):
         rec = total["violations"][sig]
         path = small = vv = None
+        tries = 0
         for i, sc, v in rec["cands"]:
-            # the violation must reproduce here (another process than the worker that saw it) ...
+            if tries >= N_REPLAY_TRIES:
+                break
+            # the violation must reproduce as the only scenario of a pristine process ...
+            try:
+                if sig[0] != "hang" and not zygote.reference("dsim.runner", "_verify_in_child", prop, sc, list(sig)):
+                    continue
+            except RuntimeError:
+                continue
+            tries += 1
+            # ... and here (another process than the worker that saw it) ...
             res0 = execute(h, sc)
             if not any(signature(x) == sig for x in res0.violations):
                 continue
